@@ -22,8 +22,10 @@ if os.path.exists(p):
     for r in rows:
         m = json.load(open(os.path.join(V, "seeded", r["id"], "meta.json")))
         cls = "; ".join(sorted(set(c for v in r.get("checks", {}).values() for c in v["classes"])))
-        t.append("| `%s` | %s | %s — *needs:* %s | %s | %s |" % (r["id"], r["property"], m.get("breaks", ""), m.get("needs_to_manifest", ""), "**caught**" if r.get("caught") else "missed", cls))
+        verdict = "**caught**" if r.get("caught") else ("missed — outside the claim: " + m["outside_claim"] if m.get("outside_claim") else "**MISSED**")
+        t.append("| `%s` | %s | %s — *needs:* %s | %s | %s |" % (r["id"], r["property"], m.get("breaks", ""), m.get("needs_to_manifest", ""), verdict, cls))
     c = sum(1 for r in rows if r.get("caught"))
-    t.append("\n%d of %d caught by the quick tier." % (c, len(rows)))
+    outside = sum(1 for r in rows if not r.get("caught") and json.load(open(os.path.join(V, "seeded", r["id"], "meta.json"))).get("outside_claim"))
+    t.append("\n%d of %d caught by the quick tier; %d missed because they break a clause that is not claimed (or, in one case, no clause at all); %d missed otherwise." % (c, len(rows), outside, len(rows) - c - outside))
     block("SEEDED", "\n".join(t))
 open(os.path.join(V, "DESIGN.md"), "w").write(d)
